@@ -271,6 +271,25 @@ fn extremes(ctx: &Ctx, present: &AtomicU64) {
             }
         }
     }
+    // airborne velocity: every combination of the smallest and largest codes of both components (code 1 = 0 kt, so
+    // (1, 1) is the null velocity whose track is 0/0), both directions, all four subtypes, vertical rate extremes
+    for subtype in 1..=4u8 {
+        let codes = [0u16, 1, 2, 3, 1022, 1023];
+        for a in codes {
+            for b in codes {
+                for (da, db) in [(0u8, 0u8), (0, 1), (1, 0), (1, 1)] {
+                    for (vs, vr) in [(0u8, 0u16), (0, 1), (1, 1), (0, 511), (1, 511)] {
+                        let body22 = if subtype <= 2 { enc::vel_ground_body(da, a, db, b) } else { enc::vel_air_body(da, a, db, b) };
+                        let me = enc::me_velocity(&enc::VelocityMe { subtype, ic: 0, ifr: 0, nac: 0, body22, vr_src: 0, vr_sign: vs, vr, reserved: 0, dif_sign: vs, dif: (vr & 0x7f) as u8 });
+                        for f in [enc::df17(5, 0xabcdef, &me), enc::df18(2, 0xabcdef, &me)] {
+                            ctx.judge(check_ranges(ctx, present, &f));
+                            n += 1;
+                        }
+                    }
+                }
+            }
+        }
+    }
     // 13-bit fields: every AC and ID code
     for code in 0..8192u16 {
         for f in [enc::df4(0, 0, 0, code, 0x111111), enc::df5(0, 0, 0, code, 0x222222), enc::df0(0, 0, 0, 0, code, 0x333333), enc::df20(0, 0, 0, code, &[0; 7], 0x444444)] {
